@@ -2,7 +2,7 @@
    followed by Print Assumptions.  [O] is an arbitrary property package + solver; [contracts O] is
    what is assumed about it (homogeneity of H and S in mol, H(0) = 0, 'L'/'S' use the models of 'l'/'s', and: a
    returned temperature satisfies the equation that was to be solved). *)
-From V Require Import Common.NumFacts C02.Model C02.Proofs.
+From V Require Import Common.NumFacts C02.Model C02.Proofs C02.ProofsDeep.
 Open Scope Q_scope.
 
 (* ---------------------------------------------------------------- mixing *)
@@ -363,4 +363,158 @@ Example C02_mix_views_nonvacuous :
 Proof.
   eexists; eexists; eexists. split; [vm_compute; reflexivity|]. split; [vm_compute; reflexivity|].
   split; [vm_compute; reflexivity|]. split; [vm_compute; discriminate|]. vm_compute; reflexivity.
+Qed.
+
+(* ================================================================ deepening round *)
+(* ---------------------------------------------------------------- exact read-back: no non-empty hypothesis *)
+(* after a successful assignment the value read back is the assigned one exactly when the stream has a net flow or
+   the assigned value is 0; otherwise Stream.H reads 0 *)
+Theorem C02_setH_readback_exact : forall O s h s',
+  contracts O -> setH O s h = (s', None) ->
+  getH O s' == (if qzerob (total s') then 0 else h) /\ (getH O s' == h <-> (~ total s == 0 \/ h == 0)).
+Proof.
+  intros O s h s' C H. split.
+  - exact (set_with_readback_exact (Hmix O) (solveH O) s h s' (cH_homog _ C) (cH_spec _ C) H).
+  - exact (set_with_readback_iff (Hmix O) (solveH O) s h s' (cH_homog _ C) (cH_spec _ C) H).
+Qed.
+Print Assumptions C02_setH_readback_exact.
+Theorem C02_setS_readback_exact : forall O s x s',
+  contracts O -> setS O s x = (s', None) ->
+  getS O s' == (if qzerob (total s') then 0 else x) /\ (getS O s' == x <-> (~ total s == 0 \/ x == 0)).
+Proof.
+  intros O s x s' C H. split.
+  - exact (set_with_readback_exact (Smix O) (solveS O) s x s' (cS_homog _ C) (cS_spec _ C) H).
+  - exact (set_with_readback_iff (Smix O) (solveS O) s x s' (cS_homog _ C) (cS_spec _ C) H).
+Qed.
+Print Assumptions C02_setS_readback_exact.
+
+(* an empty stream: assigning 0 is a no-op (T, P, phases kept); any assignment leaves it empty with P and flows kept *)
+Theorem C02_set_empty : forall O s x,
+  isempty s = true ->
+  (x == 0 -> setH O s x = (s, None) /\ setS O s x = (s, None)) /\
+  (forall s' e, setH O s x = (s', e) -> isempty s' = true /\ sP s' = sP s /\ total s' == 0).
+Proof.
+  intros O s x E. split.
+  - intros X0. split; now apply set_with_empty_noop.
+  - intros s' e H. exact (set_with_empty_stays _ _ s x s' e E H).
+Qed.
+Print Assumptions C02_set_empty.
+
+Theorem C02_mix_energy_exact : forall O st r others Q0 st' ins s',
+  contracts O -> Forall wfs st ->
+  mix_from O st r others Q0 = Ok st' ->
+  streams_of st others <> [] ->
+  sget_all st (streams_of st others) = Ok ins ->
+  sget st' r = Ok s' ->
+  getH O s' == (if qzerob (total s') then 0 else qsum (map (getH O) ins) + (Q0 + heats others)).
+Proof. exact mix_energy_exact. Qed.
+Print Assumptions C02_mix_energy_exact.
+
+(* no non-empty inlet: the receiver is emptied, keeps T and P, H = 0, whatever Q *)
+Theorem C02_mix_no_inlets : forall O st r others Q0 st' self,
+  mix_from O st r others Q0 = Ok st' -> streams_of st others = [] -> sget st r = Ok self ->
+  sget st' r = Ok (empty self) /\ getH O (empty self) == 0 /\ sT (empty self) = sT self /\ sP (empty self) = sP self.
+Proof. exact mix_no_inlets. Qed.
+Print Assumptions C02_mix_no_inlets.
+
+Theorem C02_sep_energy_exact : forall O st r o st' sr so s',
+  contracts O ->
+  separate_out O st r o = Ok st' -> r <> o ->
+  sget st r = Ok sr -> sget st o = Ok so -> sget st' r = Ok s' ->
+  getH O s' == (if qzerob (total s') then 0 else getH O sr - getH O so).
+Proof. exact sep_energy_exact. Qed.
+Print Assumptions C02_sep_energy_exact.
+
+(* ---------------------------------------------------------------- totality with the complete MaterialIndexer.copy_like
+   (MultiStream <- MultiStream of another phase set: compatible renaming or phase-set expansion; ProofsDeep.v) *)
+Theorem C02_copy_like_x_total : forall self other same, exists s1, copy_like_x self other same = Ok s1.
+Proof. exact copy_like_x_total. Qed.
+Print Assumptions C02_copy_like_x_total.
+Theorem C02_copy_like_x_conservative : forall self other same,
+  (forall s1, copy_like self other same = Ok s1 -> copy_like_x self other same = Ok s1) /\
+  (forall e, copy_like self other same = Err e ->
+     multi self = true /\ same = false /\ multi other = true /\ list_eqb Nat.eqb (phases self) (phases other) = false).
+Proof. intros. split; [apply copy_like_x_refines|apply copy_like_err_only_mm]. Qed.
+Print Assumptions C02_copy_like_x_conservative.
+Theorem C02_mix_x_conservative : forall O st r others Q0 st',
+  mix_from O st r others Q0 = Ok st' -> mix_from_x O st r others Q0 = Ok st'.
+Proof. exact mix_from_x_refines. Qed.
+Print Assumptions C02_mix_x_conservative.
+(* mixing raises only after the temperature solver raised; so with a solver that always answers it always succeeds,
+   for every store, every receiver class and every inlet list -- the side condition of C02_mix_total is gone *)
+Theorem C02_mix_x_error_needs_solver_failure : forall O st r others Q0 self e,
+  sget st r = Ok self -> mix_from_x O st r others Q0 = Err e -> solver_failed O.
+Proof. exact mix_x_error_needs_solver_failure. Qed.
+Print Assumptions C02_mix_x_error_needs_solver_failure.
+Theorem C02_mix_x_total : forall O st r others Q0 self,
+  solver_total O -> sget st r = Ok self -> exists st', mix_from_x O st r others Q0 = Ok st'.
+Proof. exact mix_x_total. Qed.
+Print Assumptions C02_mix_x_total.
+(* the copied MultiStream carries the source's enthalpy, T and P, in the expansion case and in the compatible-renaming
+   case alike (compatible_with never lets two source phases land on one row: C02_compat_targets_distinct) *)
+Theorem C02_compat_targets_distinct : forall ps qs,
+  NoDup ps -> NoDup qs -> compat ps qs = true ->
+  NoDup (map (target_phase ps) qs) /\ (forall q, In q qs -> In (target_phase ps q) ps).
+Proof. intros ps qs Np Nq C. split; [now apply compat_targets_NoDup|intros q I; now apply (compat_target_In ps qs)]. Qed.
+Print Assumptions C02_compat_targets_distinct.
+Theorem C02_copy_like_mm_energy : forall O self o,
+  contracts O -> wfs self -> wfs o ->
+  getH O (copy_like_mm self o) == getH O o /\ sP (copy_like_mm self o) = sP o /\ sT (copy_like_mm self o) = sT o.
+Proof. intros O self o C Ws Wo. apply copy_like_mm_reads; auto. now apply compat_placed_always. Qed.
+Print Assumptions C02_copy_like_mm_energy.
+(* the energy balance of mixing with the complete copy_like, exact form: no side condition, no non-empty hypothesis *)
+Theorem C02_mix_x_energy : forall O st r others Q0 st' ins s',
+  contracts O -> Forall wfs st ->
+  mix_from_x O st r others Q0 = Ok st' ->
+  streams_of st others <> [] ->
+  sget_all st (streams_of st others) = Ok ins ->
+  sget st' r = Ok s' ->
+  getH O s' == (if qzerob (total s') then 0 else qsum (map (getH O) ins) + (Q0 + heats others)).
+Proof. exact mix_x_energy_full. Qed.
+Print Assumptions C02_mix_x_energy.
+
+(* ---------------------------------------------------------------- non-vacuity of the deepening theorems *)
+(* an empty stream: assigning 0 keeps it, H reads 0; a non-empty one reads back what was assigned *)
+Example C02_readback_exact_nonvacuous :
+  setH exO exE 0 = (exE, None) /\ isempty exE = true /\ getH exO exE == 0 /\
+  exists s', setH exO exM 8192 = (s', None) /\ ~ total exM == 0 /\ getH exO s' == 8192.
+Proof.
+  split; [vm_compute; reflexivity|]. split; [reflexivity|]. split; [vm_compute; reflexivity|].
+  eexists. split; [vm_compute; reflexivity|]. split; [vm_compute; discriminate|vm_compute; reflexivity].
+Qed.
+(* only empty inlets: receiver emptied, T and P kept; and a separation that leaves nothing reads H = 0 *)
+Example C02_empty_results_nonvacuous :
+  (exists st', mix_from exO exSt 0 [IStream 3; IHeat 512] 1024 = Ok st' /\ streams_of exSt [IStream 3; IHeat 512] = [] /\
+               sget st' 0 = Ok (empty exA)) /\
+  (exists st' s', separate_out exO [exA; exA] 0 1 = Ok st' /\ sget st' 0 = Ok s' /\ qzerob (total s') = true /\ getH exO s' == 0).
+Proof.
+  split.
+  - eexists. split; [vm_compute; reflexivity|]. split; vm_compute; reflexivity.
+  - eexists; eexists. split; [vm_compute; reflexivity|]. split; [vm_compute; reflexivity|]. split; vm_compute; reflexivity.
+Qed.
+(* a gas/solid MultiStream is the only non-empty inlet of a gas/liquid MultiStream receiver: Model.mix_from stops at the
+   unmodelled branch, the extended one expands the phases to (S.., g, l, s) and conserves the enthalpy plus Q *)
+Definition exGS := mkS true [(3%nat, [1; 0; 2]); (5%nat, [0; 3; 0])] 330 200000.
+Example C02_mix_x_nonvacuous :
+  mix_from exO [exM; exGS] 0 [IStream 1] 512 = Err EOther /\
+  compat (phases exM) (phases exGS) = false /\ Forall wfs [exM; exGS] /\
+  exists st' s', mix_from_x exO [exM; exGS] 0 [IStream 1] 512 = Ok st' /\ sget st' 0 = Ok s' /\
+                 phases s' = [3%nat; 4%nat; 5%nat] /\ ~ total s' == 0 /\ getH exO s' == getH exO exGS + 512 /\
+                 getH exO (copy_like_mm exM exGS) == getH exO exGS /\ sP s' == 200000.
+Proof.
+  split; [vm_compute; reflexivity|]. split; [reflexivity|].
+  split; [repeat constructor; simpl; try lia; intros F; simpl in F; intuition discriminate|].
+  eexists; eexists. split; [vm_compute; reflexivity|]. split; [vm_compute; reflexivity|].
+  split; [vm_compute; reflexivity|]. split; [vm_compute; discriminate|].
+  split; [vm_compute; reflexivity|]. split; vm_compute; reflexivity.
+Qed.
+
+(* a compatible renaming: receiver phases (L, g), source phases (g, l): the liquid row lands on 'L' *)
+Definition exLg := mkS true [(1%nat, [2; 0; 0]); (3%nat, [0; 1; 0])] 300 101325.
+Example C02_compat_nonvacuous :
+  compat (phases exLg) (phases exM) = false /\ compat [1%nat; 5%nat] [4%nat; 5%nat] = true /\
+  NoDup (map (target_phase [1%nat; 5%nat]) [4%nat; 5%nat]) /\ map (target_phase [1%nat; 5%nat]) [4%nat; 5%nat] = [1%nat; 5%nat].
+Proof.
+  split; [reflexivity|]. split; [reflexivity|]. split; [|reflexivity].
+  simpl. repeat constructor; simpl; intuition discriminate.
 Qed.
